@@ -495,6 +495,15 @@ def _chunk(args):
             sess.count("directed_cases")
     for i in range(n):
         case = gen_case(rng, big=(i % 5 == 0))
+        if i % 6 == 3:
+            # the norm cap placed just below / at / just above the norm the deltas have after the novelty clamp
+            try:
+                nrm0 = model(case)["norm"]
+            except Exception:
+                nrm0 = 0.0
+            if nrm0 and math.isfinite(nrm0) and nrm0 > 1e-300:
+                case["caps"]["delta_norm_cap_l2"] = nrm0 * (1.0 - rng.choice([1e-7, 3e-7, 9e-7, 1e-8, 1e-10, 0.0, -1e-9, 2e-6, 1e-3]))
+                sess.count("cases_with_cap_at_the_norm_boundary")
         check_case(case, sess, hist, rng=rng, shared=(shared if (i // 40) % 3 == 1 else None))
     return sess.export()
 
